@@ -11,7 +11,7 @@ value of the symbolic doubles along the executed path.
 Client hooks (dict name -> callable(interp, args)) replace individual functions, e.g. the linear solvers are replaced by a
 hook that records (A, b) and returns fresh symbols for x.
 """
-import sys, os, math, struct
+import sys, os, math, struct, time
 from fractions import Fraction
 import z3
 from irparse import *
@@ -24,6 +24,11 @@ class MemFault(Exception):
 
 
 class LibAbort(Exception):
+    pass
+
+
+class PathInfeasible(Exception):
+    """z3 refuted the conjunction of the branch outcomes taken so far: the path is dropped (it exists for no input)"""
     pass
 
 
@@ -155,6 +160,7 @@ class XInterp(Interp):
         if isinstance(rt, TInt):
             return int.from_bytes(bytes([b]) * n, 'little') & ((1 << rt.n) - 1)
         if isinstance(rt, TFloat):
+            if b != 0 and os.environ.get('IRX_TRAP_NAN'): raise RuntimeError('double load from memory filled with byte %d' % b)
             return Rat.const(0.0) if b == 0 else NAN
         if isinstance(rt, TPtr):
             return NULL if b == 0 else Ptr('wild', b)
@@ -328,25 +334,96 @@ class XInterp(Interp):
         vs = s._vars_of(e)
         for v in vs:
             if v.get_id() not in pt['val']:
-                pt['val'][v.get_id()] = (v, z3.RealVal(Fraction(pt['rnd'].randint(-40, 40), pt['rnd'].choice((3, 5, 7, 8, 9, 11)))))
+                rv = s.__dict__.get('_root_vals', {}).get(v.get_id())
+                pt['val'][v.get_id()] = (v, z3.RealVal(rv if rv is not None else Fraction(pt['rnd'].randint(-40, 40) * pt['rnd'].choice((1, 1, 1, 6, 40, 300)), pt['rnd'].choice((3, 5, 7, 8, 9, 11)))))
         r = z3.simplify(z3.substitute(e, [pt['val'][v.get_id()] for v in vs]))
         if z3.is_true(r): return True
         if z3.is_false(r): return False
         return None
 
     def _samples(s):
+        alive = s._samples_raw()
+        alive = [pt for pt in alive if pt['alive']]
+        if not alive: alive = s._revive()
+        return alive
+
+    def _samples_raw(s):
         import random
         sm = s.__dict__.get('_sample_pts')
         if sm is None:
-            sm = s._sample_pts = [{'rnd': random.Random(9000 + i), 'val': {}, 'npath': 0, 'ndens': 0, 'alive': True} for i in range(192)]
+            sm = s._sample_pts = [{'rnd': random.Random(9000 + i), 'val': {}, 'npath': 0, 'ndens': 0, 'alive': True} for i in range(256)]
         for pt in sm:
             while pt['alive'] and pt['npath'] < len(s.path):
-                if s._eval_at(s.path[pt['npath']], pt) is not True: pt['alive'] = False
+                pc = s.path[pt['npath']]
+                rv_ = s.__dict__.get('_root_vals')
+                if rv_ and all(v.get_id() in rv_ for v in s._vars_of(pc)): pass      # definition of an irrational constant root: holds only approximately at a sample
+                elif s._eval_at(pc, pt) is not True: pt['alive'] = False
                 pt['npath'] += 1
             while pt['alive'] and pt['ndens'] < len(s.dens):
                 if s._eval_at(s.dens[pt['ndens']] != 0, pt) is not True: pt['alive'] = False
                 pt['ndens'] += 1
-        return [pt for pt in sm if pt['alive']]
+        return sm
+
+    def _z3_child(s, extra, timeout_s=6.0, want_model=False):
+        """z3 on path & divisors & extra in a killable child: ('sat', model dict | None) / ('unsat', None) / ('unknown', None)"""
+        import select, signal as _sg, json as _json
+        rfd, wfd = os.pipe()
+        pid = os.fork()
+        if pid == 0:
+            try:
+                os.close(rfd)
+                sol = z3.Solver(); sol.set('timeout', int(timeout_s * 1000) - 1500)
+                for d in s.dens: sol.add(d != 0)
+                for p_ in s.path: sol.add(p_)
+                for e in extra: sol.add(e)
+                r = str(sol.check()); mdl = None
+                if r == 'sat' and want_model:
+                    m = sol.model(); mdl = {}
+                    for d in m.decls():
+                        if d.arity() != 0: continue
+                        v = m[d]
+                        try:
+                            if z3.is_rational_value(v): mdl[d.name()] = str(v.as_fraction())
+                            elif z3.is_algebraic_value(v): mdl[d.name()] = str(v.approx(20).as_fraction())
+                        except Exception: pass
+                os.write(wfd, _json.dumps([r, mdl]).encode())
+            finally:
+                os._exit(0)
+        os.close(wfd)
+        buf = b''
+        t_end = time.time() + timeout_s
+        while True:
+            rl, _, _ = select.select([rfd], [], [], max(0.0, t_end - time.time()))
+            if not rl: break
+            chunk = os.read(rfd, 1 << 16)
+            if not chunk: break
+            buf += chunk
+        try: os.kill(pid, _sg.SIGKILL)
+        except OSError: pass
+        os.close(rfd); os.waitpid(pid, 0)
+        try:
+            r, mdl = _json.loads(buf.decode()); return r, mdl
+        except Exception:
+            return 'unknown', None
+
+    def _revive(s):
+        """no sample point satisfies the path: ask z3 once for a model and adopt it as a sample point; an infeasible path is abandoned"""
+        if s.__dict__.get('unwitnessed'): return []
+        r, mdl = s._z3_child([], 8.0, want_model=True)
+        if r == 'unsat': raise PathInfeasible()
+        if r == 'sat' and mdl is not None:
+            import random
+            pt = {'rnd': random.Random(4242 + len(s.path)), 'val': {}, 'npath': 0, 'ndens': 0, 'alive': True}
+            byname = {}
+            for pc in list(s.path) + [d != 0 for d in s.dens]:
+                for v in s._vars_of(pc): byname[v.decl().name()] = v
+            for nme, fr in mdl.items():
+                if nme in byname: pt['val'][byname[nme].get_id()] = (byname[nme], z3.RealVal(Fraction(fr)))
+            s._sample_pts.append(pt)
+            alive = [p for p in s._samples_raw() if p['alive']]
+            if alive: return alive
+        s.unwitnessed = True
+        return []
 
     def _feasible(s, c):
         """'sat' / 'unsat' / 'unknown' of path & divisors-nonzero & c"""
@@ -360,27 +437,7 @@ class XInterp(Interp):
         if res is None and not alive and s.__dict__.get('unwitnessed'):
             res = 'unknown'      # the path itself has no witness point: do not spend z3 time on every later comparison
         if res is None:
-            rfd, wfd = os.pipe()
-            pid = os.fork()
-            if pid == 0:
-                try:
-                    os.close(rfd)
-                    sol = z3.Solver(); sol.set('timeout', 4000)
-                    for d in s.dens: sol.add(d != 0)
-                    for p_ in s.path: sol.add(p_)
-                    sol.add(c)
-                    os.write(wfd, str(sol.check()).encode())
-                finally:
-                    os._exit(0)
-            os.close(wfd)
-            import select, signal as _sg
-            rl, _, _ = select.select([rfd], [], [], 6.0)
-            if rl: res = os.read(rfd, 16).decode() or 'unknown'
-            else:
-                res = 'unknown'
-                try: os.kill(pid, _sg.SIGKILL)
-                except OSError: pass
-            os.close(rfd); os.waitpid(pid, 0)
+            res, _ = s._z3_child([c], 6.0)
         memo[k] = res
         return res
 
@@ -418,8 +475,9 @@ class XInterp(Interp):
         if s.generic:
             nc = z3.simplify(z3.Not(c))
             # generic point: a branch that needs free values to coincide is left out (recorded), unless it is forced
-            if s._thin(nc) and s._feasible(c) == 'sat': r = True
-            elif s._thin(c) and s._feasible(nc) == 'sat': r = False
+            uw = s.__dict__.get('unwitnessed')
+            if s._thin(nc) and (uw or s._feasible(c) == 'sat'): r = True
+            elif s._thin(c) and (uw or s._feasible(nc) == 'sat'): r = False
             if r is not None:
                 a = c if r else nc
                 s.path.append(a); s.generic_assumed.append(a)
@@ -480,6 +538,7 @@ class XInterp(Interp):
         if op == 'fsub': return a - b
         if op == 'fmul': return a * b
         if b.isconst() and b.value() == 0:
+            if os.environ.get('IRX_TRAP_NAN'): raise RuntimeError('division by zero creates a non-finite value')
             if a.isconst() and a.value() == 0: return NAN
             return PINF     # sign not tracked; only comparisons with finite values are supported afterwards
         s.need_nonzero(b.n)
@@ -511,6 +570,8 @@ class XInterp(Interp):
         if n.startswith('llvm.va_end'): return None
         if n.startswith('llvm.fmuladd') or n == 'fma':
             return s.farith('fadd', s.farith('fmul', args[0], args[1]), args[2])
+        if n in ('llvm.floor.f64', 'llvm.ceil.f64', 'llvm.log10.f64', 'llvm.log.f64', 'llvm.exp.f64', 'llvm.cos.f64', 'llvm.sin.f64', 'llvm.pow.f64'):
+            return LIBC[n.split('.')[1]](s, list(args))
         if n.startswith('llvm.va_copy'):
             v = s.mem[args[1].obj][args[1].off]
             c = VaList(v.args); c.i = v.i
@@ -519,9 +580,26 @@ class XInterp(Interp):
             if isinstance(args[0], Special): return NAN if args[0].k == 'nan' else PINF
             return args[0]
         if n == 'cabs' and (isinstance(args[0], Special) or isinstance(args[1], Special)): return NAN
+        if n == 'cabs' and s.approx and all(isinstance(x, Rat) and x.isconst() for x in args[:2]):
+            return Rat.const(math.hypot(float(args[0].value()), float(args[1].value())))
         if n in ('__divdc3', '__muldc3'):
             if any(isinstance(x, Special) for x in args[:4]): return (NAN, NAN)
             if n == '__divdc3' and all(isinstance(x, Rat) and x.isconst() and x.value() == 0 for x in args[2:4]): return (NAN, NAN)   # x / (0+0i): non-finite
+        if n in ('sqrt', 'llvm.sqrt.f64') and not s.approx and isinstance(args[0], Rat) and args[0].isconst() and args[0].value() > 0:
+            v = args[0].value()
+            r = Fraction(math.isqrt(v.numerator), 1) / Fraction(math.isqrt(v.denominator), 1)
+            if r * r == v: return Rat(r, Fraction(1))
+            # irrational root of a constant (e.g. sqrt(50) for the default reference impedance): an exact algebraic number, as a z3
+            # constant r with r*r == v, r > 0 in the path condition
+            roots = s.__dict__.setdefault('_const_roots', {})
+            if v not in roots:
+                zr = z3.Real('sqrt_%d_%d' % (v.numerator, v.denominator))
+                d1 = zr * zr == z3.RealVal(v); d2 = zr > 0
+                s.path.append(d1); s.path.append(d2)
+                s.__dict__.setdefault('_skip_in_samples', set()).update((d1.get_id(), d2.get_id()))
+                s.__dict__.setdefault('_root_vals', {})[zr.get_id()] = Fraction(math.sqrt(float(v))).limit_denominator(10 ** 12)
+                roots[v] = Rat(zr)
+            return roots[v]
         if n in ('sqrt', 'llvm.sqrt.f64') and s.approx and isinstance(args[0], Rat) and args[0].isconst():
             v = args[0].value()
             r = Fraction(math.isqrt(v.numerator), 1) / Fraction(math.isqrt(v.denominator), 1) if v >= 0 else None
@@ -851,11 +929,22 @@ def c_format(s, fmt, args):
             elif x.isconst():
                 out += fmt_double(conv, flags, width, prec, float(x.value()))
             else:
+                # a symbolic double: a unique numeric placeholder in the requested conversion's shape, registered by VALUE so that it
+                # survives re-formatting of the digit string (vnadata_save rewrites %e output to engineering notation)
                 k = len(s.placeholders) + 1
-                txt = '7.%05d1e+00' % k       # parses as a number in every libvna reader; unique per printed symbolic value
+                pr = 6 if prec is None else prec
+                if conv in 'aA':
+                    txt = '0x1.c%012xp+2' % k
+                    val = Fraction(float.fromhex(txt))
+                else:
+                    nd = pr if conv in 'eEfF' else max(pr - 1, 0)       # digits after the decimal point
+                    if 10 ** nd <= k: raise NotImplementedError('precision %d leaves no room for placeholder %d' % (pr, k))
+                    txt = '7.%0*d' % (nd, k) if nd else '7'
+                    val = Fraction(txt)
+                    if conv in 'eE': txt += 'e+00'
                 if '+' in flags: txt = '+' + txt
-                s.placeholders[txt.lstrip('+').encode()] = (x, conv, prec)
-                out += (('%' + flags.replace('0', '').replace('+', '') + ws + 's') % txt).encode()
+                s.placeholders[val] = (x, conv, prec)
+                out += (('%' + flags.replace('0', '').replace('+', '').replace('#', '') + ws + 's') % txt).encode()
         elif conv == 'p':
             next(ai); out += b'0xptr'
         else:
@@ -957,7 +1046,7 @@ def _fflush(s, a): return 0
 def parse_c_double(b):
     """longest prefix of b that strtod accepts -> (python float or None, length)"""
     import re
-    m = re.match(rb'[ \t\n\v\f\r]*([+-]?(?:(?:\d+\.?\d*|\.\d+)(?:[eE][+-]?\d+)?|[iI][nN][fF](?:[iI][nN][iI][tT][yY])?|[nN][aA][nN]))', b)
+    m = re.match(rb'[ \t\n\v\f\r]*([+-]?(?:0[xX](?:[0-9a-fA-F]+\.?[0-9a-fA-F]*|\.[0-9a-fA-F]+)(?:[pP][+-]?\d+)?|(?:\d+\.?\d*|\.\d+)(?:[eE][+-]?\d+)?|[iI][nN][fF](?:[iI][nN][iI][tT][yY])?|[nN][aA][nN]))', b)
     if not m: return None, 0
     return m.group(1), m.end()
 
@@ -971,17 +1060,19 @@ def _strtod(s, a):
     if a[1].obj is not None: s.store(a[1], Ptr(a[0].obj, a[0].off + ln), 8)
     key = tok.lstrip(b'+-')
     neg = tok.startswith(b'-')
-    ph = s.placeholders.get(key)
+    t = tok.decode().lower()
+    if 'nan' in t: return NAN
+    if 'inf' in t: return NINF if neg else PINF
+    kt = key.decode().lower()
+    v = Fraction(float.fromhex(kt)) if kt.startswith('0x') else Fraction(kt)      # exact value of the literal (the real strtod rounds to the nearest double)
+    ph = s.placeholders.get(v)
     if ph is not None:
         s.placeholder_reads = getattr(s, 'placeholder_reads', 0) + 1
         return -ph[0] if neg else ph[0]
     sym = getattr(s, 'number_symbols', None)
     if sym is not None and key in sym:
         return -sym[key] if neg else sym[key]
-    t = tok.decode().lower()
-    if 'nan' in t: return NAN
-    if 'inf' in t: return NINF if neg else PINF
-    return Rat.const(Fraction(t))      # exact decimal value (the real strtod rounds to the nearest double)
+    return Rat.const(-v if neg else v)
 
 
 def _strtol(s, a):
@@ -1008,13 +1099,15 @@ def _unary_uf(name):
     def f(s, a):
         x = a[0]
         if isinstance(x, Special): return NAN
+        if x.isconst() and name in ('floor', 'ceil'):
+            v = x.value()
+            return Rat(Fraction(math.floor(v) if name == 'floor' else math.ceil(v)), Fraction(1))
         if x.isconst():
-            if not s.approx and name not in ('floor', 'ceil'):
-                v = float(x.value())
-                r = getattr(math, name)(v)
-                if Fraction(r) == r and name in ('log10', 'log', 'exp', 'cos', 'sin') and v in (0.0, 1.0): return Rat.const(r)
-                return Rat.const(r) if s.approx else _uf(s, name, [x])
-            return Rat.const(float(getattr(math, name)(float(x.value()))))
+            v = float(x.value())
+            try: r = getattr(math, name)(v)
+            except ValueError: return NAN
+            if not s.approx: s.__dict__.setdefault('approx_consts', []).append('%s(%r)' % (name, v))     # a constant computed numerically (recorded)
+            return Rat.const(r)
         return _uf(s, name, [x])
     return f
 
@@ -1060,7 +1153,92 @@ def _remque(s, a):
     return None
 
 
+def _cfloat(s, a, name):
+    if not s.approx or not all(isinstance(x, Rat) and x.isconst() for x in a):
+        raise NotImplementedError('%s of a symbolic value (only in approx / concrete mode)' % name)
+    return [float(x.value()) for x in a]
+
+
+def _carg(s, a):
+    re, im = _cfloat(s, a[:2], 'carg'); return Rat.const(math.atan2(im, re))
+def _cexp(s, a):
+    import cmath
+    if not s.approx:
+        # exp(a + ib) = exp(a) (cos b + i sin b) with uninterpreted exp / cos / sin (exact values at 0)
+        re, im = a[:2]
+        if isinstance(re, Special) or isinstance(im, Special): return (NAN, NAN)
+        def f(name, x, at0):
+            if x.isconst() and x.value() == 0: return Rat.const(at0)
+            return _uf(s, name, [x])
+        m = f('exp', re, 1.0); c = f('cos', im, 1.0); sn = f('sin', im, 0.0)
+        return (m * c, m * sn)
+    re, im = _cfloat(s, a[:2], 'cexp'); z = cmath.exp(complex(re, im)); return (Rat.const(z.real), Rat.const(z.imag))
+def _csqrt(s, a):
+    import cmath
+    re, im = _cfloat(s, a[:2], 'csqrt'); z = cmath.sqrt(complex(re, im)); return (Rat.const(z.real), Rat.const(z.imag))
+
+
+def _atoi(s, a):
+    import re
+    m = re.match(rb'[ \t\n\v\f\r]*([+-]?\d+)', s.cstr(a[0]))
+    return (int(m.group(1)) if m else 0) & 0xffffffff
+
+
+def _fgets(s, a):
+    buf, n, fp = a
+    n = sgn(n & 0xffffffff, 32)
+    f = _F(s, fp)
+    out = bytearray()
+    while len(out) < n - 1:
+        if f['unget']: c = f['unget'].pop()
+        elif f['pos'] >= len(f['buf']): f['eof'] = True; break
+        else: c = f['buf'][f['pos']]; f['pos'] += 1
+        out.append(c)
+        if c == 10: break
+    if not out: return NULL
+    s.put_bytes(buf, bytes(out) + b'\0')
+    return buf
+
+
+def _sscanf(s, a):
+    """the few formats libvna uses: literal text, whitespace, %d, %lf, %c"""
+    import re
+    txt = s.cstr(a[0]); fmt = s.cstr(a[1]); args = list(a[2:]); i = 0; j = 0; n = 0
+    while j < len(fmt):
+        ch = fmt[j]
+        if chr(ch).isspace():
+            while i < len(txt) and chr(txt[i]).isspace(): i += 1
+            j += 1; continue
+        if ch != 0x25:
+            if i < len(txt) and txt[i] == ch: i += 1; j += 1; continue
+            break
+        j += 1
+        ln = ''
+        while chr(fmt[j]) in 'hlL': ln += chr(fmt[j]); j += 1
+        conv = chr(fmt[j]); j += 1
+        if conv == 'c':
+            if i >= len(txt): break
+            s.store(args.pop(0), txt[i], 1); i += 1; n += 1; continue
+        while i < len(txt) and chr(txt[i]).isspace(): i += 1
+        if conv == 'd':
+            m = re.match(rb'[+-]?\d+', txt[i:])
+            if not m: break
+            s.store(args.pop(0), int(m.group(0)) & 0xffffffff, 4); i += m.end(); n += 1
+        elif conv in 'feg':
+            tok, ln_ = parse_c_double(txt[i:])
+            if tok is None: break
+            tmp = s.new_cstr(txt[i:i + ln_], 'stack')
+            v = _strtod(s, [tmp, NULL])
+            s.store(args.pop(0), v, 8 if ln else 4); i += ln_; n += 1
+        else:
+            raise NotImplementedError('sscanf conversion %%%s' % conv)
+    if n == 0 and i >= len(txt): return 0xffffffff
+    return n
+
+
 LIBC = {
+    'atoi': _atoi, 'fgets': _fgets, '__isoc99_sscanf': _sscanf, 'sscanf': _sscanf,
+    'carg': _carg, 'cexp': _cexp, 'csqrt': _csqrt,
     'insque': _insque, 'remque': _remque,
     'malloc': _malloc, 'calloc': _calloc, 'realloc': _realloc, 'free': _free,
     'strlen': _strlen, 'strcmp': _strcmp, 'strncmp': _strncmp, 'strcasecmp': _strcasecmp, 'strncasecmp': _strncasecmp,
